@@ -3,7 +3,8 @@
 Specification: spec/Driver.tla (FileBegin/PassBegin = Fresh(carry), AsmFile, Outcome; deviation parameter Leaky =
 mode flags that survive AssembleFile_InitPass), step machine spec/Driver_MC.tla.
 
-(M) Driver_MC_Hist.cfg (thorough Driver_MC_Hist3.cfg): every history of 2 (3) files of <= 2 line classes over
+(M) Driver_MC_Hist.cfg (thorough also Driver_MC_Hist3.cfg: 3 files of 1 line class): every history of 2 files of <= 2
+    line classes over
     {ok, err, forward reference, EXPECT, flag f, probe f, 8 constructs left open (IF 0/IF 1/MACRO/REPT/SECTION/
     STRUCT/SAVE/PHASE)} x -maxerrors {0,1}: FreshStart (every file starts from Fresh({})), Independent
     (result(f | history) = AsmFile(f) alone), MachineIsOutcome and the C02 clauses.
@@ -47,7 +48,7 @@ import re
 
 from vlib import aslrun, build, drvrender, drvrun, drvtrace, tlc
 from vlib.aslrun import INCLUDE
-from vlib.common import CheckError, Phase, log, pmap, rng
+from vlib.common import CheckError, Phase, log, rng
 from vlib.report import Report
 
 PID = "C18"
@@ -402,12 +403,12 @@ def main(tier):
                         "renderer and byte / text comparison (Python) are trusted",
                         "hooks: %s" % ("file/diag/stmt events" if bld.hooks else "unavailable (black-box replay only)")]
     # (M) ---------------------------------------------------------------------------------------
-    cfg = "Driver_MC_Hist.cfg" if tier == "quick" else "Driver_MC_Hist3.cfg"
-    with Phase("TLC Driver_MC %s" % cfg):
-        mc = tlc.must(tlc.run("Driver_MC", cfg, workers=4, timeout=1700, mem="10g", collect=False), "Driver_MC(%s)" % cfg)
-    if mc.violation:
-        raise CheckError("the design violates FreshStart/Independent: %s" % mc.violation[:800])
-    rep.model("Driver_MC(%s)" % cfg, mc)
+    for cfg in (["Driver_MC_Hist.cfg"] if tier == "quick" else ["Driver_MC_Hist.cfg", "Driver_MC_Hist3.cfg"]):
+        with Phase("TLC Driver_MC %s" % cfg):
+            mc = tlc.must(tlc.run("Driver_MC", cfg, workers=4, timeout=1700, mem="10g", collect=False), "Driver_MC(%s)" % cfg)
+        if mc.violation:
+            raise CheckError("the design violates FreshStart/Independent: %s" % mc.violation[:800])
+        rep.model("Driver_MC(%s)" % cfg, mc)
     lk = tlc.must(tlc.run("Driver_MC", "Driver_MC_Leaky.cfg", workers=1, timeout=600, mem="4g", collect=False),
                   "Driver_MC(Leaky)")
     rep.part("Driver_MC(Driver_MC_Leaky.cfg)", expected_counterexample=bool(lk.violation), distinct_states=lk.distinct,
@@ -482,7 +483,6 @@ def selftest(tier):
     """binding demonstration: (a) corrupted hook traces are rejected by Driver_Trace, (b) stored mutations of the
     anchored code (selftest/b218_mutants.py, applied to scratch copies of the repository) make this check report
     VIOLATION.  quick: 3 mutants, thorough: all of this property."""
-    import subprocess
     import sys
     bld = build.get("hook")
     ok = drvtrace.selftest_corruptions(bld, log)
